@@ -247,40 +247,62 @@ proof! {
 	}
 }
 
-#[cfg(kani)]
 proof! {
-	[secp] fn blinding_factor_split() {
-		// over the E7 model of the scalar group (blind_sum adds, SecretKey::from_slice refuses the
-		// marked non-scalars): split parts sum to the whole
-		use crate::secp_model::{key_of, r_of, fake_secp};
-		let secp = fake_secp();
+	[secp, zeroize] fn blinding_factor_split() {
+		// BlindingFactor::split over the scalar group (E7 model under Kani, real libsecp256k1 in
+		// the native replay): the second part is whole - first part
+		use grin_util::secp::key::SecretKey;
+		let scalar = |v: u16| {
+			let mut b = [0u8; 32];
+			b[0] = v as u8;
+			b[1] = (v >> 8) as u8;
+			BlindingFactor::from_slice(&b)
+		};
 		let a: u16 = nd::any();
 		let b: u16 = nd::any();
-		let ka = BlindingFactor::from_secret_key(key_of(a));
-		let kb = BlindingFactor::from_secret_key(key_of(b));
-		let k2 = ka.split(&kb, &secp).unwrap();
-		check!(r_of(&k2.secret_key(&secp).unwrap()) == a.wrapping_sub(b), "split: second part = whole - first part");
-		let back = k2.add(&kb, &secp).unwrap();
-		check!(r_of(&back.secret_key(&secp).unwrap()) == a, "split parts sum to the whole");
-		core::mem::forget((secp, ka, kb, k2, back));
+		nd::assume(a != 0 && b != 0 && a != b);
+		let secp = grin_util::static_secp_instance();
+		let secp = secp.lock();
+		let ka = scalar(a);
+		let kb = scalar(b);
+		let k2 = ka.split(&kb, &secp);
+		let expect = secp.blind_sum(vec![ka.secret_key(&secp).unwrap()], vec![kb.secret_key(&secp).unwrap()]).map(BlindingFactor::from_secret_key);
+		check!(matches!((&k2, &expect), (Ok(x), Ok(y)) if *x == *y), "split: second part = whole - first part");
+		core::mem::forget((ka, kb, k2, expect));
 	}
 }
 
-#[cfg(kani)]
 proof! {
-	[secp] fn blinding_factor_add() {
-		// sums do not depend on order; zero is the identity (skipped, not summed)
-		use crate::secp_model::{key_of, r_of, fake_secp};
-		let secp = fake_secp();
+	[secp, zeroize] fn blinding_factor_add() {
+		// BlindingFactor::add: the group sum whichever operand comes first (one call, operand
+		// order symbolic, compared with the sum taken in a fixed order); zero is the identity
+		let scalar = |v: u16| {
+			let mut b = [0u8; 32];
+			b[0] = v as u8;
+			b[1] = (v >> 8) as u8;
+			BlindingFactor::from_slice(&b)
+		};
 		let a: u16 = nd::any();
 		let b: u16 = nd::any();
-		let ka = BlindingFactor::from_secret_key(key_of(a));
-		let kb = BlindingFactor::from_secret_key(key_of(b));
-		let s1 = ka.add(&kb, &secp).unwrap();
-		let s2 = kb.add(&ka, &secp).unwrap();
-		check!(s1 == s2, "a + b == b + a");
-		check!(r_of(&s1.secret_key(&secp).unwrap()) == a.wrapping_add(b), "add is the group sum");
-		core::mem::forget((secp, ka, kb, s1, s2));
+		nd::assume(a.wrapping_add(b) != 0 || (a == 0 && b == 0));
+		let swap: bool = nd::any();
+		let secp = grin_util::static_secp_instance();
+		let secp = secp.lock();
+		let ka = scalar(a);
+		let kb = scalar(b);
+		let s = if swap { kb.add(&ka, &secp) } else { ka.add(&kb, &secp) };
+		if a == 0 {
+			check!(matches!(&s, Ok(x) if *x == kb), "zero is the identity");
+		} else if b == 0 {
+			check!(matches!(&s, Ok(x) if *x == ka), "zero is the identity (right)");
+		} else {
+			let expect = secp.blind_sum(vec![ka.secret_key(&secp).unwrap(), kb.secret_key(&secp).unwrap()], vec![]).map(BlindingFactor::from_secret_key);
+			check!(matches!((&s, &expect), (Ok(x), Ok(y)) if *x == *y), "add is the group sum in either operand order");
+			core::mem::forget(expect);
+		}
+		cover!(a == 0 && b != 0, "zero operand");
+		cover!(swap && a != 0 && b != 0, "operands swapped");
+		core::mem::forget((ka, kb, s));
 	}
 }
 
@@ -289,4 +311,6 @@ pub const HARNESSES: &[(&str, fn())] = &[
 	("c20::switch_commitment_type_bytes", switch_commitment_type_bytes),
 	("c20::proof_builder_rewind_message", proof_builder_rewind_message),
 	("c20::legacy_proof_builder_rewind_message", legacy_proof_builder_rewind_message),
+	("c20::blinding_factor_split", blinding_factor_split),
+	("c20::blinding_factor_add", blinding_factor_add),
 ];
